@@ -16,6 +16,7 @@ import (
 	"math/rand"
 	"os"
 	"path/filepath"
+	"strings"
 
 	"github.com/itchio/lake/pools/fspool"
 	"github.com/itchio/lake/tlc"
@@ -134,12 +135,12 @@ func cmdC05Unit(args []string) error {
 type rng64 struct{ S, E int64 }
 
 type c05File struct {
-	Index   int     `json:"index"`
-	Path    string  `json:"path"`
-	Signed  int64   `json:"signed"` // signed size
-	OnDisk  string  `json:"ondisk"` // file | missing | dir | symlink
-	Actual  int64   `json:"actual"` // size on disk (files)
-	Diffs   [][]int64 `json:"diffs"` // maximal ranges [s,e) below min(signed, actual) where the content differs
+	Index  int       `json:"index"`
+	Path   string    `json:"path"`
+	Signed int64     `json:"signed"` // signed size
+	OnDisk string    `json:"ondisk"` // file | missing | dir | symlink
+	Actual int64     `json:"actual"` // size on disk (files)
+	Diffs  [][]int64 `json:"diffs"`  // maximal ranges [s,e) below min(signed, actual) where the content differs
 }
 
 type c05Entry struct {
@@ -291,7 +292,16 @@ func applyDamage(rng *rand.Rand, dir string, c *tlc.Container, build *tree) []st
 			s := c.Symlinks[rng.Intn(len(c.Symlinks))]
 			p := filepath.Join(dir, filepath.FromSlash(s.Path))
 			os.Remove(p)
-			switch rng.Intn(3) {
+			switch rng.Intn(4) {
+			case 3:
+				// another destination STRING that path cleaning maps to the signed one (it may even resolve elsewhere:
+				// x/../y is not y when x is a link to a directory)
+				alt := []string{"./" + s.Dest, s.Dest + "/", strings.Replace(s.Dest, "/", "//", 1), "detour/../" + s.Dest, s.Dest + "/."}[rng.Intn(5)]
+				if alt == s.Dest {
+					alt = "./" + s.Dest
+				}
+				os.Symlink(alt, p)
+				log = append(log, "retarget-lexically-equal:"+s.Path+"->"+alt)
 			case 0:
 				os.Symlink(s.Dest+"-retargeted", p)
 				log = append(log, "retarget:"+s.Path)
